@@ -4,6 +4,7 @@ From TR Require Import model.Ring model.Detector model.DetSpec proofs.DetC07 pro
 (* constants and wiring read from the Go sources on every run *)
 From TR Require Import proofs.FactsDet.
 From TR Require Import model.DetExt proofs.TieDet.
+From TR Require Import model.GoSem model.Parse model.BosonExt proofs.TieDetBase proofs.TieBoson.
 Import ListNotations.
 Open Scope Z_scope.
 
@@ -61,3 +62,42 @@ Theorem C08_source_tie : forall c evs,
     thresh_bounded_from c (dinit c) evs = true ->
     map (dproj c) (src_dtrace c evs) = model_dtrace c (dinit c) evs.
 Proof. exact tie_detector. Qed.
+
+(* ---- source tie: cmd/thermal-recorder/boson.go (convertRawBosonFrame) as it is in /repo now ----
+   coq/translated/Boson.v is regenerated from the Go source on every run (the two nested range
+   loops with the early return, the edge test and the byte-offset arithmetic are Gallina);
+   model/BosonExt.v gives the calls that leave it their meaning: the raw bytes behind a token
+   (binary.LittleEndian.Uint16(raw[i:i+2]) with Go's slice bounds check against the capacity),
+   the frame's pixels and telemetry behind a handle, the BadFrameErr value.  For every byte list,
+   every height, width and edge, every previous content [old] (of that size) and telemetry of the
+   frame: the Go function leaves exactly the pixels and telemetry that model/Parse.v's
+   [parse_raw Boson] leaves - on a zero pixel off the border the frame overwritten up to and
+   including that pixel - and returns a BadFrameErr exactly when the model does, i.e.
+   ([parse_bad_iff]) exactly when some pixel off the edge border is zero: border pixels never
+   decide whether a frame is rejected.
+   Side conditions: the frame is h x w ([tdims]: h rows of w pixels each), and the raw slice holds
+   two bytes for every pixel the parser reads ([boson_pixels_read]: up to and including the first
+   zero pixel off the border; 2*h*w bytes always suffice).  Shorter slices make the Go code panic
+   (slice bounds out of range) - [Panicked] below, with the pixels stored so far. *)
+Theorem C08_source_boson_tie : forall raw h w edge old tel,
+    tdims h w old ->
+    (2 * boson_pixels_read raw h w edge <= List.length raw)%nat ->
+    src_boson raw edge old tel = let (e, wd) := model_boson raw h w edge old in Ok e wd.
+Proof. exact tie_boson. Qed.
+
+Theorem C08_source_boson_full : forall raw h w edge old tel,
+    tdims h w old -> (2 * h * w <= List.length raw)%nat ->
+    src_boson raw edge old tel = let (e, wd) := model_boson raw h w edge old in Ok e wd.
+Proof. exact tie_boson_full. Qed.
+
+Theorem C08_source_boson_short : forall raw h w edge old tel,
+    tdims h w old ->
+    (List.length raw < 2 * boson_pixels_read raw h w edge)%nat ->
+    src_boson raw edge old tel =
+    Panicked (mkBW [raw] [mkBF (stored raw h w old (List.length raw / 2)) boson_telemetry]).
+Proof. exact tie_boson_short. Qed.
+
+Theorem C08_source_boson_bad_iff : forall raw h w edge old tel,
+    tdims h w old -> (2 * h * w <= List.length raw)%nat ->
+    exists wd, src_boson raw edge old tel = Ok (if has_bad_pixel Boson raw h w edge then ERR_BAD_FRAME else 0) wd.
+Proof. exact boson_source_bad_iff. Qed.
